@@ -365,6 +365,8 @@ def gen_setup_client(seed, opts=None):
             # the client announces leases of its own (it subscribes to its lease publisher inside connect())
             cfg['lease_script'] = [{'at': _pick(rng, [(2, 0.0), (1, 0.0001), (1, 0.01), (1, 0.5)]), 'n': rng.randint(1, 9), 'ttl_us': 5_000_000}
                                    for _ in range(rng.randint(1, 3))]
+            if rng.random() < 0.5:
+                cfg['lease_script'][0]['sync'] = True
     ias = []
     for i in range(rng.randint(0, 4)):
         kind = _pick(rng, [(3, 'rr'), (2, 'fnf'), (2, 'push'), (1, 'stream'), (1, 'channel')])
